@@ -81,7 +81,22 @@ def r1_enabled_filter(ctx):
     defs = local_defs(b, "enabled_steps")
     ok, why = (False, "enabled_steps not computed") if len(defs) != 1 or defs[0][1] is None else _is_enabled_filter(b, defs[0][1], "parameters")
     ctx.check(ok, b.qual + "#enabled", why, where=b, node=defs[0][0] if defs else b.node)
-    ctx.floor(n + 1, 4)
+    # the mode objects are built from the declared parameter list itself: nothing may be dropped,
+    # merged or reordered between the configuration and the mode that filters the enabled ones
+    bp = ctx.func("pyxel.observation.observation:build_parameter_mode")
+    n_b = 0
+    for cl in calls_in(bp.node):
+        cn = call_name(cl)
+        if cn.split(".")[0] not in MODES:
+            continue
+        a = arg_or_kw(cl, 0, "parameters")
+        v = expand(bp, a) if a is not None else None
+        while isinstance(v, ast.Call) and call_name(v) in ("list", "tuple") and len(v.args) == 1 and not v.keywords:
+            v = expand(bp, v.args[0])
+        ok = v is not None and dotted(v) == "parameters"
+        ctx.check(ok, f"{bp.qual}#declared-list:{cn}", f"{cn} receives the declared parameters" if ok else f"{cn} is built from {norm(v)[:80] if v is not None else None} instead of the declared parameter list (declarations are dropped / merged before the enabled ones are selected)", where=bp, node=cl)
+        n_b += 1
+    ctx.floor(n + 1 + n_b, 7)
 
 
 def _star_arg(call: ast.Call):
@@ -653,4 +668,58 @@ def r8_parameters_applied_in_given_order(ctx):
         ctx.check(ok, f.qual + "#order", why, where=f, node=lps[0].iter if lps and lps[0] is not None else f.node)
 
 
-RULES = [r8_parameters_applied_in_given_order, r7_dask_grid_labels, r1_enabled_filter, r2_run_space, r3_column_cursor, r4_entry_wiring, r5_names_and_zips, r6_validation_first]
+def r9_dask_column_cursor(ctx):
+    """convert_custom_data (the dask sibling of CustomMode._custom_parameters): one column cursor starting at 0, advanced on every path through the parameter loop by the number of placeholders of that parameter; a single-placeholder parameter reads custom_data[cursor], a vector parameter the columns counted from the cursor."""
+    from sa.paths import enumerate_paths
+
+    f = ctx.func(f"{M}:convert_custom_data")
+    outer = [l for l in loops_in(f.node) if isinstance(l, ast.For) and enclosing_loop(l) is None]
+    if len(outer) != 1:
+        raise AnalysisError("convert_custom_data: parameter loop not recognised")
+    lp = outer[0]
+    it = expand(f, lp.iter)
+    tgt = lp.target
+    if isinstance(it, ast.Call) and call_name(it) == "enumerate" and it.args and isinstance(tgt, ast.Tuple) and len(tgt.elts) == 2:
+        it, tgt = it.args[0], tgt.elts[1]
+    ok = isinstance(it, ast.Call) and call_name(it) == "zip" and [dotted(a) for a in it.args] == ["params_names", "params_custom_list"] and isinstance(tgt, ast.Tuple) and len(tgt.elts) == 2 and all(isinstance(e, ast.Name) for e in tgt.elts)
+    ctx.check(ok, f.qual + "#loop", "one pass over (name, placeholders) pairs in declaration order" if ok else f"parameter loop iterates {norm(lp.iter)[:80]}", where=f, node=lp.iter)
+    if not ok:
+        return
+    pv = tgt.elts[1].id
+    paths = enumerate_paths(lp.body, containers=set())
+    live = [q for q in paths if q.exit == "fall"]
+    for q in paths:
+        if q.exit in ("continue", "break", "return"):
+            ctx.fail(f.qual + "#advance-once", f"{q.exit} inside the parameter loop leaves a parameter without consuming its columns", where=f, node=q.exit_node)
+    carried = {nm for q in live for nm, val in q.env.items() if nm.isidentifier() and nm in names_in(val)}
+    if len(carried) != 1:
+        ctx.fail(f.qual + "#cursor", f"expected one column cursor advanced inside the parameter loop, found {sorted(carried)} (the position of a parameter is not its column offset: a vector parameter takes several columns)", where=f, node=lp)
+        return
+    cur = next(iter(carried))
+    inits = [st for st, val in local_defs(f, cur) if isinstance(val, ast.Constant) and not contains(lp, st)]
+    ok = len(inits) == 1 and inits[0].value.value == 0
+    ctx.check(ok, f.qual + "#reset", f"`{cur}` starts at column 0" if ok else f"column cursor `{cur}` does not start at 0", where=f, node=inits[0] if inits else lp)
+    wlen = to_poly(ast.parse(f"len({pv})", mode="eval").body)
+    one = to_poly(ast.Constant(value=1))
+    n = 0
+    for q in live:
+        scalar = q.holds(f"len({pv}) == 1") is True
+        fin = q.env.get(cur)
+        adv = (to_poly(fin) - to_poly(ast.Name(id=cur, ctx=ast.Load()))) if fin is not None else None
+        okadv = adv is not None and (adv == wlen or (scalar and adv == one))
+        tag = "scalar" if scalar else "vector"
+        ctx.check(okadv, f.qual + f"#advance:{tag}", f"cursor advances by the number of placeholders ({tag})" if okadv else (f"cursor `{cur}` is not advanced for a {tag} parameter" if fin is None else f"cursor becomes {norm(fin)} instead of {cur} + len({pv}) for a {tag} parameter"), where=f, node=lp)
+        n += 1
+        # the columns read start at the cursor
+        reads = [sub_ for e_ in q.effects if e_.value is not None for sub_ in ast.walk(e_.value) if isinstance(sub_, ast.Subscript) and dotted(sub_.value) == "custom_data"]
+        if not reads:
+            ctx.fail(f.qual + f"#read-{tag}", f"a {tag} parameter stores nothing read from the table", where=f, node=lp)
+        for rd in reads:
+            used = names_in(rd.slice)
+            okr = cur in used and (not scalar or dotted(rd.slice) == cur)
+            ctx.check(okr, f.qual + f"#read-{tag}", "columns are counted from the cursor" if okr else f"a {tag} parameter reads custom_data[{norm(rd.slice)[:60]}]: not the column(s) at the cursor", where=f, node=lp)
+            n += 1
+    ctx.floor(n, 4)
+
+
+RULES = [r9_dask_column_cursor, r8_parameters_applied_in_given_order, r7_dask_grid_labels, r1_enabled_filter, r2_run_space, r3_column_cursor, r4_entry_wiring, r5_names_and_zips, r6_validation_first]
